@@ -102,6 +102,8 @@ struct Hist {
     n: usize,
     /// sink calls of the healthy run on a sink that accepts half of every buffer (0 = not enumerated)
     n_half: usize,
+    /// every k is failed with EVERY error kind (sticky and transient) instead of two rotating kinds
+    all_kinds: bool,
 }
 
 impl Hist {
@@ -154,6 +156,10 @@ enum Part {
     /// the same on a sink that accepts half of every buffer (so that continuation writes of a `write_all` loop
     /// fail as well): sticky failure of call k for every k in lo..hi of the healthy half-accepting run
     FaultsHalf { lo: usize, hi: usize },
+    /// a destination that STAGES written bytes until a successful flush: every flush call of the healthy run is
+    /// preceded by n consecutive `Interrupted` results (n = 1, 2, 3, 4, 7) or fails (every error kind, sticky and
+    /// transient); whenever all calls return Ok the committed bytes must be what a healthy staging run commits
+    Staging,
 }
 
 struct Case {
@@ -293,6 +299,8 @@ struct PhaseMap {
     finish_start: usize,
     eof_start: usize,
     len: usize,
+    /// BGZF-wrapped kinds: (offset, size, is EOF marker) of every member of the healthy output
+    members: Vec<(usize, usize, bool)>,
 }
 
 impl PhaseMap {
@@ -306,6 +314,20 @@ impl PhaseMap {
         } else {
             PH_RECORD
         }
+    }
+
+    /// BGZF-wrapped kinds: which part of a block frame the byte at `off` belongs to.
+    fn frame_part(&self, off: usize) -> Option<&'static str> {
+        let &(start, size, eof) = self.members.iter().find(|m| off >= m.0 && off < m.0 + m.1)?;
+        Some(if eof {
+            "eof-marker"
+        } else if off - start < 18 {
+            "frame-header"
+        } else if off - start < size - 8 {
+            "frame-cdata"
+        } else {
+            "frame-trailer"
+        })
     }
 
     fn of_call(&self, calls: &[Call], k: usize) -> &'static str {
@@ -343,7 +365,7 @@ fn phase_map(item: &Item, _d: Drive, out: &[u8]) -> PhaseMap {
     let kind = item.kind;
     if kind.is_bgzf_wrapped() {
         let Ok(w) = obgzf::walk(out) else {
-            return PhaseMap { header_end: 0, finish_start: len, eof_start: len, len };
+            return PhaseMap { header_end: 0, finish_start: len, eof_start: len, len, members: Vec::new() };
         };
         let data: Vec<&obgzf::Member> = w.members.iter().filter(|m| !m.is_eof_marker).collect();
         let eof_start = match w.members.last() {
@@ -369,7 +391,8 @@ fn phase_map(item: &Item, _d: Drive, out: &[u8]) -> PhaseMap {
             }
             u += m.data.len();
         }
-        return PhaseMap { header_end, finish_start, eof_start, len };
+        let members = w.members.iter().map(|m| (m.offset as usize, m.size as usize, m.is_eof_marker)).collect();
+        return PhaseMap { header_end, finish_start, eof_start, len, members };
     }
     match kind {
         Kind::Cram => {
@@ -378,26 +401,28 @@ fn phase_map(item: &Item, _d: Drive, out: &[u8]) -> PhaseMap {
             let eof_start = if c.len() >= 2 { *c.last().unwrap() } else { len };
             let header_end = if c.len() >= 2 { c[1] } else { len };
             let finish_start = if c.len() >= 3 { c[c.len() - 2] } else { eof_start };
-            PhaseMap { header_end, finish_start: finish_start.max(header_end), eof_start, len }
+            PhaseMap { header_end, finish_start: finish_start.max(header_end), eof_start, len, members: Vec::new() }
         }
         // one gzip member; the deflate stream and the trailer (for an index without records: the gzip header too)
         // come out of finish(): every sink call is labelled finish
-        Kind::Crai => PhaseMap { header_end: 0, finish_start: 0, eof_start: len, len },
-        Kind::Sam => PhaseMap { header_end: text_header_end(out, b'@'), finish_start: len, eof_start: len, len },
-        Kind::Vcf => PhaseMap { header_end: text_header_end(out, b'#'), finish_start: len, eof_start: len, len },
+        Kind::Crai => PhaseMap { header_end: 0, finish_start: 0, eof_start: len, len, members: Vec::new() },
+        Kind::Sam => PhaseMap { header_end: text_header_end(out, b'@'), finish_start: len, eof_start: len, len, members: Vec::new() },
+        Kind::Vcf => PhaseMap { header_end: text_header_end(out, b'#'), finish_start: len, eof_start: len, len, members: Vec::new() },
         Kind::BamRaw => PhaseMap {
             header_end: corpus::bounds::bam_record_offsets(out).and_then(|v| v.first().copied()).unwrap_or(0),
             finish_start: len,
             eof_start: len,
             len,
+            members: Vec::new(),
         },
         Kind::BcfRaw => PhaseMap {
             header_end: corpus::bounds::bcf_record_offsets(out).and_then(|v| v.first().copied()).unwrap_or(0),
             finish_start: len,
             eof_start: len,
             len,
+            members: Vec::new(),
         },
-        _ => PhaseMap { header_end: 0, finish_start: len, eof_start: len, len },
+        _ => PhaseMap { header_end: 0, finish_start: len, eof_start: len, len, members: Vec::new() },
     }
 }
 
@@ -533,6 +558,10 @@ fn run_fault(h: &HCtx, k: usize, mode: FaultMode, ekind: io::ErrorKind, half: bo
     o.count(if half { "fault_runs_on_half_accepting_sink" } else { "fault_runs" }, 1);
     o.count(&format!("fault_runs_by_error_kind[{ekind:?}]"), 1);
     o.count(&format!("fault_runs_by_phase[{phase}]"), 1);
+    o.count(&format!("fault_runs_by_error_kind_and_phase[{ekind:?}|{phase}]"), 1);
+    if let Some(part) = h.healthy.calls.get(k).filter(|c| !c.flush).and_then(|c| h.phases.frame_part(c.off)) {
+        o.count(&format!("fault_runs_by_error_kind_and_bgzf_frame_part[{ekind:?}|{part}]"), 1);
+    }
     let witness = || {
         json!({"writer": w, "item": h.item.name, "k": k, "n": n, "mode": mode_name(mode), "error_kind": format!("{ekind:?}"), "sink_accepts_half_of_every_buffer": half,
                "phase": phase, "offset_of_call_in_healthy_output": h.healthy.calls.get(k).map(|c| c.off),
@@ -637,6 +666,184 @@ fn run_fault(h: &HCtx, k: usize, mode: FaultMode, ekind: io::ErrorKind, half: bo
         }
     }
     o.fps.push(fnv1a(format!("F|{w}|{phase}|{}|{ekind:?}|{outcome}|{half}", mode_name(mode)).as_bytes()));
+}
+
+/// Committed bytes of a staging run equal the reference (CRAM: same length, and the same content once complete).
+fn same_commit(h: &HCtx, ref_commit: &[u8], ref_staged: usize, got: &[u8]) -> Result<(), String> {
+    if h.item.write_bytes_deterministic() {
+        if got == ref_commit {
+            Ok(())
+        } else {
+            Err(format!("{} committed bytes instead of {}, first difference at byte {}", got.len(), ref_commit.len(), first_diff(got, ref_commit)))
+        }
+    } else if got.len() != ref_commit.len() {
+        Err(format!("{} committed bytes instead of {}", got.len(), ref_commit.len()))
+    } else if ref_staged == 0 {
+        decodes_equal(h.item, &h.healthy.bytes, got)
+    } else {
+        Ok(())
+    }
+}
+
+/// Part "interrupted / staging": the destination stages written bytes until a successful flush (a BufWriter, a
+/// transactional sink). Only writers whose healthy history flushes the destination are judged; what is required is
+/// the statement itself: an `Interrupted` / failing flush is either retried, or some call returns an Err; whenever
+/// ALL calls return Ok the destination has committed exactly what a healthy run commits.
+fn run_staging(h: &HCtx, o: &mut CaseOut, v: &mut Viol) {
+    let w = h.writer.clone();
+    let flush_calls: Vec<usize> = h.healthy.calls.iter().enumerate().filter(|(_, c)| c.flush).map(|(k, _)| k).collect();
+    o.fp = fnv1a(format!("ST|{w}|{}", h.item.name).as_bytes());
+    if flush_calls.is_empty() {
+        // nothing is ever committed by this history: out of this sub-check
+        o.count("staging_histories_that_never_flush_the_destination", 1);
+        o.count(&format!("staging_histories_that_never_flush_the_destination[{w}]"), 1);
+        return;
+    }
+    // reference: healthy staging run
+    let (ref_commit, ref_staged) = {
+        let sink = FaultyWrite::healthy().with_staging();
+        let (res, _) = replay(h, &sink);
+        o.evaluations += 1;
+        match res {
+            Ok(Ok(())) => (sink.bytes(), sink.staged_len()),
+            Ok(Err(e)) => {
+                v.add(o, format!("{w}:not-ok-on-healthy-sink:{PH_FINISH}"), format!("{w} history of {} on a healthy staging sink returned {:?}: {e}", h.item.name, e.kind()), Value::Null);
+                return;
+            }
+            Err(p) => {
+                v.add(o, format!("{w}:panic:{PH_FINISH}:{}", p.sig), format!("{w} history of {} on a healthy staging sink panicked: {}", h.item.name, p.message), Value::Null);
+                return;
+            }
+        }
+    };
+    o.count("staging_histories_judged", 1);
+    o.count(&format!("staging_histories_judged[{w}]"), 1);
+    if h.healthy.calls.last().map(|c| c.flush).unwrap_or(false) {
+        // the history ends with a flush of the destination: everything must be committed
+        o.count("staging_histories_ending_with_a_flush", 1);
+        if ref_staged != 0 || ref_commit.len() != h.healthy.bytes.len() {
+            v.add(
+                o,
+                format!("{w}:uncommitted-after-final-flush:{PH_FINISH}"),
+                format!("{w} history of {} on a healthy staging sink ends with a flush but {} bytes are committed and {ref_staged} staged (healthy output: {} bytes)", h.item.name, ref_commit.len(), h.healthy.bytes.len()),
+                Value::Null,
+            );
+        }
+    }
+    // every flush call for short lists, the first and last 16 otherwise
+    let chosen: Vec<usize> = if flush_calls.len() <= 32 { (0..flush_calls.len()).collect() } else { (0..16).chain(flush_calls.len() - 16..flush_calls.len()).collect() };
+    if chosen.len() < flush_calls.len() {
+        o.count("staging_flush_calls_not_enumerated", (flush_calls.len() - chosen.len()) as u64);
+    }
+    for &i in &chosen {
+        let k = flush_calls[i];
+        let phase = h.phases.of_call(&h.healthy.calls, k);
+        // (1) n consecutive Interrupted results before flush call i
+        for n in [1usize, 2, 3, 4, 7] {
+            let sink = FaultyWrite::healthy().with_staging().with_flush_interrupts([(i, n)]);
+            let (res, _) = replay(h, &sink);
+            o.evaluations += 1;
+            o.count("staging_flush_interrupt_runs", 1);
+            o.count(&format!("staging_flush_interrupt_runs[n={n}]"), 1);
+            let delivered = sink.log.lock().unwrap().flush_interrupts_returned;
+            o.count("flush_interrupts_delivered", delivered as u64);
+            let witness = json!({"writer": w, "item": h.item.name, "flush_call": i, "sink_call": k, "consecutive_interrupted_results": n, "delivered": delivered});
+            let outcome;
+            match res {
+                Err(p) => {
+                    outcome = "panic";
+                    v.add(o, format!("{w}:panic:{phase}:{}", p.sig), format!("{w} history of {}: flush call {i} of the destination interrupted {n} time(s): noodles panicked: {}", h.item.name, p.message), witness);
+                }
+                Ok(Err(e)) if e.kind() == io::ErrorKind::Interrupted => {
+                    outcome = "surfaced";
+                    o.count("flush_interrupted:surfaced", 1);
+                    o.count(&format!("flush_interrupted:surfaced[{w}]"), 1);
+                }
+                Ok(Err(e)) => {
+                    outcome = "surfaced-other";
+                    o.count("flush_interrupted:surfaced_as_other_error", 1);
+                    o.count(&format!("flush_interrupted:surfaced_as_other_error[{w}->{:?}]", e.kind()), 1);
+                }
+                Ok(Ok(())) => {
+                    let got = sink.bytes();
+                    let staged = sink.staged_len();
+                    let same = same_commit(h, &ref_commit, ref_staged, &got).and_then(|()| if staged == ref_staged { Ok(()) } else { Err(format!("{staged} bytes still staged instead of {ref_staged}")) });
+                    match same {
+                        Ok(()) if delivered > 0 => {
+                            outcome = "retried";
+                            o.count("flush_interrupted:retried", 1);
+                            o.count(&format!("flush_interrupted:retried[{w}]"), 1);
+                        }
+                        Ok(()) => {
+                            outcome = "not-reached";
+                            o.count("flush_interrupted:not_reached", 1);
+                        }
+                        Err(why) => {
+                            outcome = "uncommitted";
+                            v.add(
+                                o,
+                                format!("{w}:uncommitted-after-interrupted-flush:{phase}"),
+                                format!(
+                                    "{w} history of {} on a destination that stages bytes until flush: flush call {i} (sink call {k}, phase {phase}) returned Interrupted {delivered} time(s) in a row; every writer call, the finishing call included, returned Ok, but the destination did not commit what a healthy run commits: {why} (healthy: {} committed, {ref_staged} staged)",
+                                    h.item.name,
+                                    ref_commit.len()
+                                ),
+                                witness,
+                            );
+                        }
+                    }
+                }
+            }
+            o.fps.push(fnv1a(format!("SI|{w}|{phase}|{n}|{outcome}").as_bytes()));
+        }
+        // (2) flush call i fails with every error kind, sticky and transient
+        for &ek in ERROR_KINDS {
+            for mode in [FaultMode::Sticky(k), FaultMode::Transient(k)] {
+                let sink = FaultyWrite::new(mode, ek, Accept::All).with_staging();
+                let (res, _) = replay(h, &sink);
+                o.evaluations += 1;
+                o.count("staging_flush_fault_runs", 1);
+                o.count(&format!("staging_flush_fault_runs_by_error_kind[{ek:?}]"), 1);
+                let errors_returned = sink.log.lock().unwrap().errors_returned;
+                let witness = json!({"writer": w, "item": h.item.name, "flush_call": i, "sink_call": k, "mode": mode_name(mode), "error_kind": format!("{ek:?}"), "staging": true});
+                let outcome;
+                match res {
+                    Err(p) => {
+                        outcome = "panic";
+                        v.add(o, format!("{w}:panic:{phase}:{}", p.sig), format!("{w} history of {}: flush call {i} of a staging destination failed ({} {ek:?}): noodles panicked: {}", h.item.name, mode_name(mode), p.message), witness);
+                    }
+                    Ok(Err(_)) => {
+                        outcome = "surfaced";
+                        o.count("staging_flush_faults_surfaced", 1);
+                    }
+                    Ok(Ok(())) if errors_returned > 0 => {
+                        outcome = "swallowed";
+                        v.add(
+                            o,
+                            format!("{w}:swallowed-sink-error:{phase}"),
+                            format!(
+                                "{w} history of {} on a destination that stages bytes until flush: flush call {i} (sink call {k}, phase {phase}) failed with {} {ek:?} ({errors_returned} error(s) returned to noodles) but every writer call, the finishing call included, returned Ok; {} of {} bytes committed, {} staged",
+                                h.item.name,
+                                mode_name(mode),
+                                sink.bytes().len(),
+                                h.healthy.bytes.len(),
+                                sink.staged_len()
+                            ),
+                            witness,
+                        );
+                    }
+                    Ok(Ok(())) => {
+                        outcome = "not-reached";
+                        o.count("fault_positions_not_reached", 1);
+                        if let Err(why) = same_commit(h, &ref_commit, ref_staged, &sink.bytes()) {
+                            v.add(o, format!("{w}:uncommitted-after-ok:{phase}"), format!("{w} history of {} on a staging destination: all calls Ok, no failure reached, but {why}", h.item.name), witness);
+                        }
+                    }
+                }
+                o.fps.push(fnv1a(format!("SF|{w}|{phase}|{}|{ek:?}|{outcome}", mode_name(mode)).as_bytes()));
+            }
+        }
+    }
 }
 
 fn judge_same_output(h: &HCtx, what: &str, class: &str, pattern: &str, sink: &FaultyWrite, res: Result<io::Result<()>, guard::PanicInfo>, o: &mut CaseOut, v: &mut Viol) {
@@ -815,6 +1022,7 @@ fn run_fs(ctx: &Ctx, c: &Case, item: &Item, prepared: &Prepared, w: &str, o: &mu
     let tag = match c.part {
         Part::Base => "base".to_string(),
         Part::Faults { lo, .. } | Part::FaultsHalf { lo, .. } => lo.to_string(),
+        Part::Staging => "staging".to_string(),
     };
     let path = ctx.work.join(format!("c14-fs-{}-{tag}.out", c.hist));
     let _ = std::fs::remove_file(&path);
@@ -843,7 +1051,7 @@ fn run_fs(ctx: &Ctx, c: &Case, item: &Item, prepared: &Prepared, w: &str, o: &mu
                 }
             }
         }
-        Part::FaultsHalf { .. } => {}
+        Part::FaultsHalf { .. } | Part::Staging => {}
         Part::Faults { lo, hi } => {
             if !matches!(healthy_res, Ok(Ok(()))) {
                 return; // reported by the base case
@@ -958,7 +1166,7 @@ fn gen_world(ctx: &Ctx) -> World {
     for (i, it) in items.iter().enumerate() {
         let drives = drives_of(it.kind);
         let Ok(p) = corpus::prepare_write(it) else {
-            cand.push(Hist { item: i, drive: Drive::Std, n: 0, n_half: 0 });
+            cand.push(Hist { item: i, drive: Drive::Std, n: 0, n_half: 0, all_kinds: false });
             continue;
         };
         for &d in &drives {
@@ -969,13 +1177,13 @@ fn gen_world(ctx: &Ctx) -> World {
             }
             if d == Drive::Fs {
                 // positions = byte offsets 0..len at which the file may not grow any further, plus /dev/full
-                cand.push(Hist { item: i, drive: d, n: it.bytes.len() + 1, n_half: 0 });
+                cand.push(Hist { item: i, drive: d, n: it.bytes.len() + 1, n_half: 0, all_kinds: false });
                 continue;
             }
             let n = probe_run(it, &p, d, false).map(|h| h.calls.len()).unwrap_or(0);
             // the background thread of the multithreaded writer emits frames exactly like the single-threaded one
             let n_half = if n > 0 && n <= half_max && !matches!(d, Drive::BgzfMt | Drive::BgzfMtDrop) { probe_run(it, &p, d, true).map(|h| h.calls.len()).unwrap_or(0) } else { 0 };
-            cand.push(Hist { item: i, drive: d, n, n_half });
+            cand.push(Hist { item: i, drive: d, n, n_half, all_kinds: false });
         }
     }
     // per writer: at most `per_kind` histories with N <= max_n, in corpus order (tiny, header-only, small, ...);
@@ -1009,12 +1217,32 @@ fn gen_world(ctx: &Ctx) -> World {
         }
     }
     hists.sort_by_key(|h| (h.item, h.drive));
+    // per writer: the (up to) three longest histories below a size cap get every error kind at every position
+    let all_kinds_max = ctx.budget("all_kinds_max_calls", 700, 2500) as usize;
+    let all_kinds_per_writer = ctx.budget("all_kinds_per_writer", 3, 6) as usize;
+    {
+        let mut by_writer: BTreeMap<String, Vec<usize>> = BTreeMap::new();
+        for (i, h) in hists.iter().enumerate() {
+            if h.drive != Drive::Fs && h.n > 0 && h.n <= all_kinds_max {
+                by_writer.entry(h.writer_name(&items)).or_default().push(i);
+            }
+        }
+        for (_, mut v) in by_writer {
+            v.sort_by_key(|&i| std::cmp::Reverse(hists[i].n));
+            for &i in v.iter().take(all_kinds_per_writer) {
+                hists[i].all_kinds = true;
+            }
+        }
+    }
 
     // cases: one Base per history, fault positions in chunks of bounded cost (a run that fails at call k costs ~k)
     let chunk_cost = ctx.budget("chunk_cost", 400_000, 1_500_000) as usize;
     let mut cases = Vec::new();
     for (hi, h) in hists.iter().enumerate() {
         cases.push(Case { hist: hi, part: Part::Base });
+        if h.drive != Drive::Fs && h.n > 0 {
+            cases.push(Case { hist: hi, part: Part::Staging });
+        }
         let per_run_overhead = match h.drive {
             Drive::BgzfMt | Drive::BgzfMtDrop => 4000,
             Drive::Fs => 1500,
@@ -1023,7 +1251,7 @@ fn gen_world(ctx: &Ctx) -> World {
         let mut lo = 0usize;
         let mut cost = 0usize;
         for k in 0..h.n {
-            cost += 2 * (k + per_run_overhead);
+            cost += 2 * (k + per_run_overhead) * if h.all_kinds { ERROR_KINDS.len() } else { 1 };
             if cost >= chunk_cost || k + 1 == h.n {
                 cases.push(Case { hist: hi, part: Part::Faults { lo, hi: k + 1 } });
                 lo = k + 1;
@@ -1051,8 +1279,9 @@ fn case_json(w: &World, c: &Case) -> Value {
         Part::Base => ("base", 0, 0),
         Part::Faults { lo, hi } => ("faults", lo, hi),
         Part::FaultsHalf { lo, hi } => ("faults-on-half-accepting-sink", lo, hi),
+        Part::Staging => ("staging-destination", 0, 0),
     };
-    json!({"writer": h.writer_name(&w.items), "item": it.name, "item_len": it.bytes.len(), "drive": h.drive.name(), "part": part, "lo": lo, "hi": hi, "n": h.n})
+    json!({"writer": h.writer_name(&w.items), "item": it.name, "item_len": it.bytes.len(), "drive": h.drive.name(), "part": part, "lo": lo, "hi": hi, "n": h.n, "all_error_kinds": h.all_kinds})
 }
 
 fn run_case(ctx: &Ctx, w: &World, c: &Case) -> CaseOut {
@@ -1114,15 +1343,25 @@ fn run_case(ctx: &Ctx, w: &World, c: &Case) -> CaseOut {
         Part::Faults { lo, hi } => {
             let rot = (fnv1a(item.name.as_bytes()) % ERROR_KINDS.len() as u64) as usize;
             for k in lo..hi.min(healthy.calls.len()) {
-                let k1 = ERROR_KINDS[(k + rot) % ERROR_KINDS.len()];
-                let k2 = ERROR_KINDS[(k + rot + 3) % ERROR_KINDS.len()];
-                run_fault(&hc, k, FaultMode::Sticky(k), k1, false, &mut o, &mut v);
-                run_fault(&hc, k, FaultMode::Transient(k), k2, false, &mut o, &mut v);
-                o.evaluations += 2;
+                if h.all_kinds {
+                    for &ek in ERROR_KINDS {
+                        run_fault(&hc, k, FaultMode::Sticky(k), ek, false, &mut o, &mut v);
+                        run_fault(&hc, k, FaultMode::Transient(k), ek, false, &mut o, &mut v);
+                        o.evaluations += 2;
+                    }
+                    o.count("fault_positions_enumerated_with_every_error_kind", 1);
+                } else {
+                    let k1 = ERROR_KINDS[(k + rot) % ERROR_KINDS.len()];
+                    let k2 = ERROR_KINDS[(k + rot + 3) % ERROR_KINDS.len()];
+                    run_fault(&hc, k, FaultMode::Sticky(k), k1, false, &mut o, &mut v);
+                    run_fault(&hc, k, FaultMode::Transient(k), k2, false, &mut o, &mut v);
+                    o.evaluations += 2;
+                }
                 o.count("fault_positions_enumerated", 1);
                 o.count(&format!("fault_positions_enumerated[{writer}]"), 1);
             }
         }
+        Part::Staging => run_staging(&hc, &mut o, &mut v),
         Part::FaultsHalf { lo, hi } => {
             let rot = (fnv1a(item.name.as_bytes()) % ERROR_KINDS.len() as u64) as usize;
             for k in lo..hi.min(healthy.calls.len()) {
@@ -1144,13 +1383,16 @@ fn main() {
     let mut rep = Report::new(
         "history = canonical write history (corpus crate) of one writable corpus item through the noodles writer of its kind (BGZF items also \
          through MultithreadedWriter and through a writer dropped without finish); evaluation = one replay of a history on a scripted sink \
-         (healthy, call k failing sticky / transient for EVERY k of the healthy run, 4 short-write patterns, 5 Interrupted patterns); distinct = \
+         (healthy, call k failing sticky / transient for EVERY k of the healthy run — with two rotating error kinds, and with EVERY error kind for the \
+         three longest small histories of each writer —, 4 short-write patterns, 5 Interrupted patterns, and on a destination that stages bytes until \
+         flush: 1/2/3/4/7 consecutive Interrupted results or a failure of every kind at every flush call); distinct = \
          distinct (writer, phase of the failing call, sticky/transient, error kind, outcome class) for fault runs, (writer, pattern, pattern took \
          effect) for short-write / Interrupted runs, (writer, item) for base cases; non-trivial = all",
     );
     rep.assumptions.push("the corpus write histories (corpus::write_prepared) call the documented finishing call of each writer and flush the sink last; they contain no buffering layer of their own".into());
     rep.assumptions.push("after the first Err of any call the history stops and drops the writer; nothing is required of later calls".into());
     rep.assumptions.push("a failure reported later than call k (at flush / finish) or wrapped in another error counts as reported".into());
+    rep.assumptions.push("staging destinations: only histories that flush the destination in a healthy run are judged (the others are counted); Interrupted from flush may be retried or returned as Err, but all-Ok requires the committed bytes of a healthy staging run".into());
     rep.assumptions.push("phase labels are derived from the byte offset of the failing sink call in the healthy output (last BGZF data member / last CRAM data container = finish)".into());
 
     let world = gen_world(&ctx);
@@ -1203,6 +1445,34 @@ fn main() {
             rep.floor("interrupts_delivered", get(&rep, "interrupts_delivered"), 1000);
             let surfaced = get(&rep, "faults_surfaced_as_the_injected_error") + get(&rep, "faults_surfaced_wrapped_in_another_error") + get(&rep, "faults_surfaced_as_other_error");
             rep.floor("faults_surfaced", surfaced, 2000);
+            // every error kind met every phase and every part of a BGZF block frame
+            let mut kinds_table = Vec::new();
+            for ek in ERROR_KINDS {
+                let mut row = serde_json::Map::new();
+                row.insert("error_kind".into(), json!(format!("{ek:?}")));
+                row.insert("fault_runs".into(), json!(get(&rep, &format!("fault_runs_by_error_kind[{ek:?}]"))));
+                for ph in [PH_HEADER, PH_RECORD, PH_FINISH, PH_EOF] {
+                    let n = get(&rep, &format!("fault_runs_by_error_kind_and_phase[{ek:?}|{ph}]"));
+                    row.insert(ph.to_string(), json!(n));
+                    rep.floor(&format!("fault runs with {ek:?} in phase {ph}"), n, 4);
+                }
+                for part in ["frame-header", "frame-cdata", "frame-trailer", "eof-marker"] {
+                    let n = get(&rep, &format!("fault_runs_by_error_kind_and_bgzf_frame_part[{ek:?}|{part}]"));
+                    row.insert(format!("bgzf:{part}"), json!(n));
+                    rep.floor(&format!("fault runs with {ek:?} on a BGZF {part} write"), n, 4);
+                }
+                let n = get(&rep, &format!("staging_flush_fault_runs_by_error_kind[{ek:?}]"));
+                row.insert("staging_flush_fault_runs".into(), json!(n));
+                rep.floor(&format!("flush failures with {ek:?} on a staging destination"), n, 20);
+                kinds_table.push(Value::Object(row));
+            }
+            rep.extra.insert("error_kinds".into(), json!(kinds_table));
+            rep.floor("fault_positions_enumerated_with_every_error_kind", get(&rep, "fault_positions_enumerated_with_every_error_kind"), 2000);
+            rep.floor("staging_histories_judged", get(&rep, "staging_histories_judged"), 40);
+            rep.floor("flush_interrupts_delivered", get(&rep, "flush_interrupts_delivered"), 500);
+            for n in [1, 2, 3, 4, 7] {
+                rep.floor(&format!("staging_flush_interrupt_runs[n={n}]"), get(&rep, &format!("staging_flush_interrupt_runs[n={n}]")), 40);
+            }
         }
     }
     rep.finish(&ctx);
